@@ -19,7 +19,6 @@ KV_COMPOSITE = {
     KV + ".__imul__": "delegates to scale",
     KV + ".__itruediv__": "delegates to scale",
     KV + ".degree.setter": "remove / insert under disjoint relations of the same unmodified local",
-    KV + ".normalize": "shift then scale (or one validated rebuild): the second step divides by the positive length",
 }
 
 
